@@ -107,7 +107,7 @@ def find_all_blocks(code, header_re):
     res = []
     for m in re.finditer(header_re, code):
         between = code[m.end():code.find("{", m.end())] if "{" in code[m.end():] else "x"
-        if between.strip():
+        if between.strip() and not re.fullmatch(r"\s*where\b[^{;]*", between):
             continue
         res.append(inner(code, block_after(code, m.end())))
     return res
